@@ -39,7 +39,7 @@ JoinClean(cur, rest) == IF rest = <<>> THEN cur
 Ambiguous(raw) == raw # <<>> /\ PL!AmbiguousExpand(EnvF, raw)
 
 HasFlag(c, x) == \E i \in 1..Len(c.f) : c.f[i] = x
-TwoPath == {"move_p", "copy", "copy_b", "symlink"}
+TwoPath == {"move_p", "copy", "copy_b", "copy_seq", "symlink"}
 BoolQ == {"exists", "is_dir", "is_file", "is_symlink", "is_symlink_dir", "is_symlink_file", "is_exec", "is_readonly"}
 ListQ == {"paths", "dirs", "files", "all_paths", "all_dirs", "all_files"}
 
@@ -80,6 +80,29 @@ ChownOpts(c) == [setu |-> HasFlag(c, "u") \/ HasFlag(c, "o"), setg |-> HasFlag(c
                  recursive |-> ~HasFlag(c, "R"), follow |-> HasFlag(c, "F")]
 LinesData(c) == JoinLines(c.ls)
 
+\* ---- builder programs: the options a sequence of builder calls ends with (last setter wins), then the plain operator ----
+SeqArg(stp) == stp[2] * 256 + stp[3]
+SeqSyms == << <<"f", ":", "u", "+", "x">>, <<"d", ":", "g", "o", "-", "r", "x">>, <<"a", ":", "a", "=", "r">> >>
+RECURSIVE ChmodFold(_, _)
+ChmodFold(o, steps) == IF steps = <<>> THEN o ELSE LET x == steps[1]  k == x[1]  a == SeqArg(x) IN
+   ChmodFold(CASE k = 1 -> [o EXCEPT !.dm = a, !.fm = a] [] k = 2 -> [o EXCEPT !.dm = a] [] k = 3 -> [o EXCEPT !.fm = a]
+               [] k = 4 -> [o EXCEPT !.follow = TRUE] [] k = 5 -> [o EXCEPT !.recursive = TRUE] [] k = 6 -> [o EXCEPT !.recursive = FALSE]
+               [] k = 7 -> [o EXCEPT !.sym = SeqSyms[(a % 3) + 1]]
+               [] k = 8 -> [o EXCEPT !.sym = <<"f", ":", "a", "+", "r", ",", "f", ":", "a", "-", "w", "x">>]
+               [] OTHER -> [o EXCEPT !.sym = <<"a", ":", "g", "o", "-", "r", "w", "x">>], Tail(steps))
+ChmodSeqOpts(c) == ChmodFold([dm |-> 0, fm |-> 0, sym |-> <<>>, recursive |-> TRUE, follow |-> FALSE], c.ls)
+RECURSIVE ChownFold(_, _)
+ChownFold(o, steps) == IF steps = <<>> THEN o ELSE LET x == steps[1]  k == x[1] IN
+   ChownFold(CASE k = 1 -> [o EXCEPT !.setu = TRUE, !.uid = x[2]] [] k = 2 -> [o EXCEPT !.setg = TRUE, !.gid = x[3]]
+               [] k = 3 -> [o EXCEPT !.setu = TRUE, !.uid = x[2], !.setg = TRUE, !.gid = x[3]]
+               [] k = 4 -> [o EXCEPT !.follow = TRUE] [] k = 5 -> [o EXCEPT !.recursive = TRUE] [] OTHER -> [o EXCEPT !.recursive = FALSE], Tail(steps))
+ChownSeqOpts(c) == ChownFold([setu |-> FALSE, setg |-> FALSE, uid |-> 0, gid |-> 0, recursive |-> TRUE, follow |-> FALSE], c.ls)
+RECURSIVE CopyFold(_, _)
+CopyFold(o, steps) == IF steps = <<>> THEN o ELSE LET x == steps[1]  k == x[1]  a == SeqArg(x) IN
+   CopyFold(CASE k = 1 -> [o EXCEPT !.dm = a, !.fm = a] [] k = 2 -> [o EXCEPT !.dm = a, !.fm = 0] [] k = 3 -> [o EXCEPT !.dm = 0, !.fm = a]
+              [] k = 4 -> [o EXCEPT !.follow = TRUE] [] OTHER -> [o EXCEPT !.follow = FALSE], Tail(steps))
+CopySeqOpts(c) == CopyFold([dm |-> 0, fm |-> 0, follow |-> FALSE], c.ls)
+
 Expected(st, c, Own) ==
   LET op == c.op IN
   IF (op \in {"write_lines", "append_lines"} /\ LinesData(c) = <<>>) \/ (op = "append_line" /\ (c.ls = <<>> \/ c.ls[1] = <<>>))
@@ -106,6 +129,7 @@ Expected(st, c, Own) ==
          IF rb.o # "ok" THEN ArgErr(st, rb.o)
          ELSE IF op = "move_p" THEN Op_move_p(st, p, rb.p)
          ELSE IF op = "copy" THEN Op_copy_b(st, Own, p, rb.p, [dm |-> 0, fm |-> 0, follow |-> FALSE])
+         ELSE IF op = "copy_seq" THEN Op_copy_b(st, Own, p, rb.p, CopySeqOpts(c))
          ELSE Op_copy_b(st, Own, p, rb.p, CopyOpts(c)))
   ELSE CASE op = "mkfile" -> Op_mkfile(st, Own, p)
          [] op = "mkfile_m" -> Op_mkfile_m(st, Own, p, c.m)
@@ -125,6 +149,8 @@ Expected(st, c, Own) ==
          [] op = "set_cwd" -> LET o == Op_set_cwd(st, p) IN IF o.res.o = "ok" THEN [o EXCEPT !.res = ROk(PV(p))] ELSE o
          [] op = "chmod" -> Op_chmod_b(st, p, [dm |-> c.m, fm |-> c.m, sym |-> <<>>, recursive |-> TRUE, follow |-> FALSE])
          [] op = "chmod_b" -> Op_chmod_b(st, p, ChmodOpts(c))
+         [] op = "chmod_seq" -> Op_chmod_b(st, p, ChmodSeqOpts(c))
+         [] op = "chown_seq" -> Op_chown_b(st, p, ChownSeqOpts(c))
          [] op = "chown" -> Op_chown_b(st, p, [setu |-> TRUE, setg |-> TRUE, uid |-> c.m, gid |-> c.n, recursive |-> TRUE, follow |-> FALSE])
          [] op = "chown_b" -> Op_chown_b(st, p, ChownOpts(c))
          [] op \in {"read", "read_all", "read_lines"} /\ IsLink(st.fs, p) -> R(st, RAny)     \* D10: Memfs refuses, the real filesystem follows
@@ -179,9 +205,10 @@ StateOK(o, pre, post) ==
 PairedOK(o, pre, post, got) == IF got.o = "ok" THEN StEq(o.st, post) ELSE post = pre
 
 \* with follow a traversal may stop with LinkLooping as soon as a followed link leads to a directory: admissible (C08 decides exactly when)
-LoopAdmissible(st, c) == /\ c.op \in {"chmod_b", "chown_b"} /\ HasFlag(c, "F")
+LoopAdmissible(st, c) == /\ \/ (c.op \in {"chmod_b", "chown_b"} /\ HasFlag(c, "F"))
+                            \/ (c.op = "chmod_seq" /\ ChmodSeqOpts(c).follow) \/ (c.op = "chown_seq" /\ ChownSeqOpts(c).follow)
                          /\ LET ra == ResolveA(st, c) IN ra.o = "ok" /\ Exists(st.fs, ra.p)
-                              /\ \E x \in Visit(st.fs, ra.p, ~HasFlag(c, "R"), TRUE) : IsLink(st.fs, x) /\ TK(st.fs, st.fs[x].t) = "dir"
+                              /\ \E x \in Visit(st.fs, ra.p, TRUE, TRUE) : IsLink(st.fs, x) /\ TK(st.fs, st.fs[x].t) = "dir"
 JudgeStepO(pre, s, Own) ==
    LET c == s.c
        viol == IF s.same = "t" THEN "-" ELSE RepViolation(s.post)
